@@ -70,7 +70,7 @@ class C16(Check):
     ASSUMPTIONS = ['zlib / zstandard C libraries are trusted as codecs; the property is about rxsci\'s streaming wrappers',
                    'reference decoders: gzip.decompress and zstandard.ZstdDecompressor.stream_reader']
     ANCHORS = ['rxsci/compression/z.py', 'rxsci/compression/zstd.py']
-    REQUIRED_TAGS = ['gzip', 'zstd', 'empty-list', 'empty-chunk-in-input', 'over-one-buffer', 'rand', 'zeros', 'multi-MiB-compressible', 'over-4MiB', 'compressed-size-is-a-block-size', 'mixed-compressibility']
+    REQUIRED_TAGS = ['gzip', 'zstd', 'empty-list', 'empty-chunk-in-input', 'over-one-buffer', 'rand', 'zeros', 'multi-MiB-compressible', 'over-4MiB', 'compressed-size-is-a-block-size', 'mixed-compressibility', 'thousands-of-small-chunks']
     REQUIRED_OBSERVED = ['truncations_checked', 'rechunkings_checked', 'reference_decodes', 'compressed_streams_of_exactly_a_block_size']
 
     _ops = {}
@@ -118,6 +118,15 @@ class C16(Check):
                 sizes = [rng.choice([1 << 20, (1 << 20) + 13, 3 << 19]) for _ in range(rng.randint(2, 4))]
                 kind = ('zeros', 'text')[(k // 24) % 2]
                 codec = ('gzip', 'zstd')[(k // 48) % 2]
+            if k % 20 == 12:
+                # MANY small chunks, a round number of them (one chunk per record of a data set of 1000 / 3000 / 4096 / 10 000
+                # records): counters of items, periodic flush points
+                counts = [1000, 3000, 4096, 10000, 2000, 5000, 8192, 6000] if tier == 'quick' else [1000, 3000, 4096, 10000, 6000, 30000, 60000, 65536, 100000, 2000, 5000, 8192, 20000, 50000]
+                cnt = counts[(k // 20) % len(counts)]
+                yield {'codec': ('gzip', 'zstd')[(k // 20 // len(counts)) % 2] if tier != 'quick' else ('gzip', 'zstd')[(k // 40) % 2],
+                       'data': {'kind': 'text', 'sizes': [rng.choice([0, 1, 7, 20]) if j % 50 else 20 for j in range(cnt)], 'dseed': rng.randrange(1 << 30)},
+                       'rechunks': [{'mode': 'natural'}, {'mode': 'blob'}, {'mode': 'fixed', 'size': 4096}], 'truncs': [0, 1, 5], 'tseed': 0, 'tier': tier, 'many': cnt}
+                continue
             if k % 20 == 7:
                 # mixed compressibility: highly repetitive blocks (a few output bytes per 128 KiB) in front of, between and behind
                 # ordinary / incompressible data - small and large OUTPUT items alternate
@@ -269,6 +278,8 @@ class C16(Check):
             out.tags.append('over-one-buffer')
         if case.get('target'):
             out.tags.append('compressed-size-is-a-block-size')
+        if case.get('many'):
+            out.tags.append('thousands-of-small-chunks')
         if len(data) > (4 << 20):
             out.tags.append('over-4MiB')
         if len(data) > (2 << 20) and case['data']['kind'] in ('zeros', 'text'):
